@@ -435,7 +435,7 @@ func runProofs(c *mc.Ctx) {
 		r.replay()
 		return
 	}
-	if d := time.Now().Add(time.Duration(c.Pick(80, 13*60)) * time.Second); d.Before(c.Deadline) {
+	if d := time.Now().Add(time.Duration(c.Pick(85, 13*60)) * time.Second); d.Before(c.Deadline) {
 		c.Deadline = d // wall-clock budget; only stops the enumeration (reported as a cap)
 	}
 	var done int64
